@@ -144,6 +144,9 @@ func (fr *frame) runDefer(d *deferred) {
 			if ab, isab := r.(abortPanic); isab {
 				panic(ab)
 			}
+			if cp, isc := r.(crashPanic); isc {
+				panic(cp)
+			}
 			fr.panicking = true
 			fr.panic = r
 		}
@@ -504,6 +507,9 @@ func runFrame(fr *frame) {
 		r := recover()
 		if ab, ok := r.(abortPanic); ok {
 			panic(ab)
+		}
+		if cp, ok := r.(crashPanic); ok {
+			panic(cp)
 		}
 		if s, ok := r.(string); ok && len(s) > 7 && s[:7] == "engine:" {
 			panic(r)
